@@ -101,6 +101,10 @@ def make_spec(rng, idx=0, unmodelled=False):
     # two words on disk for ONE sid value ("if the value exists multiple times, the first one is returned"): the
     # second word is accepted by the path patterns and read as the value, but is never the path of the Sid
     spec["mapping_synonym"] = feature()
+    # the third path configuration accepts fewer values than the Sid configuration (publish area: one state only)
+    spec["narrow_third"] = feature()
+    # a path default for a FREE Sid key (an entity level): an empty value is rendered with the default on disk
+    spec["free_key_default"] = feature()
     # features the Lean model does not have (oracle-only runs): extra path keys computed from a sid key, and a value
     # mapping that holds for ONE type only
     spec["extra_keys"] = bool(unmodelled)
@@ -270,6 +274,10 @@ def write_package(spec, directory):
             "{%s}" % S: "{%s:%s}" % (S, _closed(list(mapping_alt[S].keys()) + (["FINAL"] if spec.get("typed_mapping") else []))),
         }
     fs_kp_alt["project"] = {"{%s}" % P: "{%s:%s}" % (P, _closed(list(mapping_alt[P].keys())))}
+    if spec.get("narrow_third"):      # the third configuration hosts the LAST state only: the other states have no path there
+        last_word = list(mapping_alt[S].keys())[-1]
+        for bt in spec["basetypes"]:
+            fs_kp_alt[bt["name"]]["{%s}" % S] = "{%s:%s}" % (S, _closed([last_word]))
 
     def fs_conf(fname, sub, mapping=mapping, fs_kp=fs_kp):
         with open(os.path.join(directory, fname), "w") as f:
@@ -280,6 +288,12 @@ def write_package(spec, directory):
             pdef = {S: list(mapping[S].keys())[0]} if spec.get("path_defaults") else {}
             if spec.get("template_default_key"):
                 pdef["dept0"] = "3D"
+            if spec.get("free_key_default"):
+                for bt_ in spec["basetypes"]:
+                    for l_ in bt_["levels"]:
+                        if not l_.get("vocab") and not l_.get("digits"):
+                            pdef.setdefault(l_["key"], "unnamed")
+                            break
             s2e, e2s = {}, {}
             if spec.get("extra_keys"):      # the (mapped) type folder also decides a disk folder
                 words = list(mapping[T].items())
